@@ -1219,6 +1219,38 @@ for _fn, _q, _t in (("c14_path_list_index", 40, 120), ("c14_path_list_props", 40
 
 LOADER.warm(ENV)
 
+# ---- the special property names as CONTENT of the value they are looked up on: an array holding the string "size", a
+# string containing "first", a hash with a key "last" (the lookup must not confuse membership with keys) ---------------------
+SPECIAL_OBJS = [["size"], ["x", "size", "first"], ["first"], ["last", "size"], "size", "oversized", "first", "last one", "", [],
+                {"size": 9}, {"first": 8, "x": 1}, {"last": 7}, {"x": 1}, ["a", "b"], "ab", ["siz", "e"], ("size", "x")]
+SPECIAL_KEYS = ["size", "first", "last"]
+F_SPECIAL = TemplateFamily("[{{ o.size }}][{{ o.first }}][{{ o.last }}][{{ o['size'] }}][{{ w.o.size }}][{{ o[k] }}]")
+
+
+def special_case(oi, ki, ss, sfl, strict):
+    env = env_of(ss, sfl, strict)
+    o = SPECIAL_OBJS[oi]
+    k = SPECIAL_KEYS[ki]
+    data = {"o": o, "w": {"o": o}, "k": k}
+    vals = [ref_get(data, ["o", "size"], ss, sfl), ref_get(data, ["o", "first"], ss, sfl), ref_get(data, ["o", "last"], ss, sfl),
+            ref_get(data, ["o", "size"], ss, sfl), ref_get(data, ["w", "o", "size"], ss, sfl), ref_get(data, ["o", k], ss, sfl)]
+    return check_prints(F_SPECIAL.of(env), data, vals, strict)
+
+
+def c14_path_special_names(oi: int, ki: int, ss: bool, sfl: bool, strict: bool) -> bool:
+    """
+    pre: 0 <= oi <= 17 and 0 <= ki <= 2
+    post: _
+    """
+    if excluded("c14_path_special_names", locals()):
+        return True
+    from vf.hx import cbool, cint, untraced
+    oi, ki, ss, sfl, strict = cint(oi, 0, 17), cint(ki, 0, 2), cbool(ss), cbool(sfl), cbool(strict)
+    return finish(untraced(lambda: special_case(oi, ki, ss, sfl, strict)))
+
+
+CONDITIONS.append({"fn": "c14_path_special_names", "quick": 40, "thorough": 80, "sel_only": True})
+
 # ---- block-scoped names vanish after their block also when the block is left by an interrupt or an error ----------
 from liquid import CachingDictLoader as _CDL, Mode as _Mode  # noqa: E402
 
